@@ -579,6 +579,18 @@ SEEDS = [
                 }
                 parent_index = parent.parent;
                 index = parent_index;""", note='node cursor advanced to the new parent (order of the two updates swapped)'),
+    dict(id='PG1-key-expire-root-no-removal', props=['C10'], file='src/key/tree.rs',
+         old="""                return index;
+            }
+            self.delete_index(index);
+            index = self.root;""",
+         new="""                return index;
+            }
+            index = self.root;""", note='purge loop of the root no longer removes the expired node: the loop re-reads the same root forever'),
+    dict(id='PG2-key-height-cursor-not-advanced', props=['C10'], file='src/key/array.rs',
+         old="""            node = self.node(node.left);
+            if node.color == Color::Black {""",
+         new="""            if node.color == Color::Black {""", note='height(): the cursor is no longer advanced, the walk down the left spine never ends'),
     dict(id='NB2-set-after-right-minimum', props=['C09'], file='src/set/tree.rs',
          old="""        if node.right != EMPTY_REF {
             self.find_left_minimum(node.right)""",
